@@ -409,6 +409,7 @@ func init() {
 			{Name: "periodic", N: c12PeriodicN, Run: c12Periodic, Exhaustive: true},
 			{Name: "byte-heavy", N: c12ByteHeavyN, Run: c12ByteHeavy, Exhaustive: true},
 			{Name: "padded-bounds", N: c12PaddedN, Run: c12Padded, Exhaustive: true},
+			{Name: "paging", N: c12PagingN, Run: c12Paging, Exhaustive: true},
 			{Name: "direct", N: func(c *Ctx) int { return tierN(c, 40000, 8000000) }, Run: c12Direct},
 		},
 	})
@@ -432,6 +433,48 @@ func c12Padded(c *Ctx, idx int) {
 		m, _ := c.CheckModel("C12", f, doc, goDoc, CheckOpts{Compiled: idx%2 == 0, Features: map[string]string{"stream": "padded-bounds", "zeros": fmt.Sprint(len(z))}})
 		if !m.Unspec {
 			c.Nontrivial(f)
+		}
+	}
+}
+
+// c12Paging: two slices in a row over arrays that contain nulls.  A slice of an array is a
+// projection: x[a:] drops the nulls it selected before the next stage sees the array, so
+// x[a:] | [:k] is not x[a:a+k] when a null lies inside the window.  Arrays of 0..9 elements with
+// nulls at every position pattern, skip 0..4, take 0..4, in every spelling of the two stages
+// (exhaustive), against the model.
+func c12PagingN(c *Ctx) int { return 40 * 5 * 5 }
+
+func c12Paging(c *Ctx, idx int) {
+	pat := idx % 40
+	skip := idx / 40 % 5
+	take := idx / 200
+	n := 3 + pat%7
+	arr := &ref.Arr{}
+	recs := &ref.Arr{}
+	for i := 0; i < n; i++ {
+		if (pat*7+i*i+i/2)%3 == 0 || (pat >= 30 && i%2 == 1) {
+			arr.E = append(arr.E, nil)
+			recs.E = append(recs.E, nil)
+			continue
+		}
+		arr.E = append(arr.E, fmt.Sprintf("r%d", i))
+		o := ref.NewObj()
+		o.Set("k", fmt.Sprintf("k%d", i))
+		if i%4 != 1 {
+			o.Set("v", gen.IntV(int64(i)))
+		}
+		recs.E = append(recs.E, o)
+	}
+	doc := ref.NewObj()
+	doc.Set("x", arr)
+	doc.Set("rs", recs)
+	goDoc := ref.ToGo(doc, ref.JSONNumber)
+	s, t := fmt.Sprint(skip), fmt.Sprint(take)
+	for _, f := range []string{"x[" + s + ":] | [:" + t + "]", "x[" + s + ":][:" + t + "]", "(x[" + s + ":])[:" + t + "]", "x | [" + s + ":] | [:" + t + "]", "rs[" + s + ":] | [:" + t + "].k", "rs[" + s + ":] | [:" + t + "].v", "x[:" + t + "] | [" + s + ":]", "x[" + s + ":" + fmt.Sprint(skip+take) + "]",
+		"x[" + s + ":] | [" + t + "]", "x[::2] | [:" + t + "]", "x[" + s + ":] | [-" + fmt.Sprint(take+1) + ":]", "x[" + s + ":] | [:" + t + "] | length(@)", "rs[" + s + ":].v | [:" + t + "]", "x[" + s + ":] | [::-1] | [:" + t + "]", "let $p = x[" + s + ":] in $p[:" + t + "]", "x[*] | [" + s + ":] | [:" + t + "]", "x[" + s + ":] | [" + s + ":] | [:" + t + "]", "x[-" + fmt.Sprint(skip+1) + ":] | [:" + t + "]"} {
+		m, _ := c.CheckModel("C12", f, doc, goDoc, CheckOpts{Compiled: idx%4 == 0, Features: map[string]string{"stream": "paging"}})
+		if !m.Unspec {
+			c.Nontrivial(f, fmt.Sprint(pat))
 		}
 	}
 }
